@@ -93,7 +93,9 @@ theorem C01_owner_change (s s' : St) (ev : Ev) (m : Nat) (h : step s ev = .ok s'
     simp only [effSleep]; cases q <;> (simp only []; split <;> simp [setTh, hm])
   case intrNoSleep t st e b => simp only [effIntrNoSleep]; split <;> simp [setTh, hm]
   case wakeTimeout t => simp [effWakeTimeout, dequeue, setTh, hm]; split <;> simp [hm]
-  case wakeIntr t e b => simp [effWakeIntr, dequeue, setTh, hm]; split <;> simp [hm]
+  case wakeIntr t e b =>
+    have hw : (wokenState s0 t e).mutex = s.mutex := by simp only [wokenState, dequeue]; split <;> simp [setTh, hm]
+    rcases effWakeIntr_form s0 t e b with hf | hf <;> rw [hf] <;> simp [setTh, hw]
   all_goals simp [effCreate, effDie, effCall, effSetShutdown, effResume, effYield, effRet, effSemInit, effSemAdd,
       effSemResume, effSemPass, effMutexInit, setTh, hm]
 
@@ -241,7 +243,7 @@ theorem eff_invQ (s : St) (e : Ev) (hp : pre s e = none) (h : InvQ s) : InvQ (ef
     · exact h
   case callUnlock t m => exact h
   case callNotify t c => exact h
-  case retNotify t c r a => exact h
+  case retNotify t c r a => exact invQ_setTh_same s h t _ rfl rfl (fun m to ho => by simp at ho)
   case quiescent => exact h
   case tick n => exact ⟨h.mem, h.nodup, h.held⟩
   case semInit sm c io => exact ⟨h.mem, h.nodup, h.held⟩
@@ -362,7 +364,11 @@ theorem eff_invQ (s : St) (e : Ev) (hp : pre s e = none) (h : InvQ s) : InvQ (ef
   case wakeTimeout t =>
     exact wake_invQ s h t { s.th t with st := .run, q := none } rfl rfl rfl
   case wakeIntr t e by_ =>
-    exact wake_invQ s h t { s.th t with st := .run, q := none, err := e, intrSince := (s.th t).intrSince ++ [e] } rfl rfl rfl
+    have h1 : InvQ (wokenState s t e) :=
+      wake_invQ s h t { s.th t with st := .run, q := none, err := e, intrSince := (s.th t).intrSince ++ [e] } rfl rfl rfl
+    rcases effWakeIntr_form s t e by_ with hf | hf <;> rw [hf]
+    · exact h1
+    · exact invQ_setTh_same _ h1 by_ _ rfl rfl (fun m to ho => Or.inl ho)
 
 theorem invQ_congr (s s0 : St) (h : InvQ s) (h1 : s0.th = s.th) (h2 : s0.queue = s.queue)
     (h3 : s0.mutex = s.mutex) : InvQ s0 :=
@@ -422,9 +428,9 @@ theorem C01_unlock_handoff (s s' : St) (m : Nat) (no hd : Option Nat) (b : Nat)
         refine ⟨c1, c2, ?_, rfl⟩
         simp [eff, effMutexUnlock, upd, c3]
 
-theorem C01_handoff_next (s s' : St) (e : Ev) (hd : Nat) (hh : s.handoff = some hd)
-    (h : step s e = .ok s') : ∃ er b, e = .wakeIntr hd er b := by
-  unfold step at h
+theorem stepH_handoff_next (s s' : St) (e : Ev) (hd : Nat) (hh : s.handoff = some hd)
+    (h : step.stepH s e = .ok s') : ∃ er b, e = .wakeIntr hd er b := by
+  unfold step.stepH at h
   rw [hh] at h
   cases e
   case wakeIntr t er b =>
@@ -433,6 +439,16 @@ theorem C01_handoff_next (s s' : St) (e : Ev) (hd : Nat) (hh : s.handoff = some 
     · next heq => subst heq; exact ⟨er, b, rfl⟩
     · exact absurd h (by simp [fail])
   all_goals exact absurd h (by simp [fail])
+
+theorem C01_handoff_next (s s' : St) (e : Ev) (hd : Nat) (hh : s.handoff = some hd)
+    (h : step s e = .ok s') : ∃ er b, e = .wakeIntr hd er b := by
+  unfold step at h
+  split at h
+  · split at h
+    · exact stepH_handoff_next s s' _ hd hh h
+    · exact absurd h (by simp [fail])
+  · exact absurd h (by simp [fail])
+  · exact stepH_handoff_next s s' _ hd hh h
 
 /-! ### non-vacuity: three threads, a timeout racing a hand-off -/
 example : (run {} [.create 1, .create 2, .create 3,
